@@ -116,6 +116,9 @@ ProxyProtocol::One::ParseAddresses(Parser::Tokenizer &tok, Header::Pointer &head
 
     ExtractPort(tok, header->sourceAddress, true);
     ExtractPort(tok, header->destinationAddress, false);
+
+    if (!tok.atEnd())
+        throw TexcHere("PROXY/1.0 error: garbage after the destination port");
 }
 
 /// parses PROXY protocol v1 header from the buffer
